@@ -14,6 +14,13 @@
 //	same <ty> <op> <a> <r>                op: shl shr           (IntN.LeftBitshiftIntN ...)
 //	f    <ty> <op> <bitsA> <bitsB>        ty: fl f64 f32; op: add sub mul div cmp lt le gt ge eq
 //	cv   <op> <x>                         op: i2fl i2f32 big2fl fl2f32 f322f64 fl2int i642f64
+//	fp   <via> <ty> <op> <bitsA> <bitsB>  op: pow mod; via: val (value.ExponentiateVal/ModuloVal),
+//	                                      typed (f.ExponentiateFloat(o) ...), meth (native `**` / `%`
+//	                                      registered on the class), meth1 (Float only: `**@1` / `%@1`)
+//	fpi  <via> <op> <bitsA> <int>         Float ** Int, Float % Int (SmallInt or BigInt); via: val meth
+//
+// For pow the observed field is followed by one more tab-separated column: Go's math.Pow on the
+// same operands (at binary64, rounded to the width), computed here, not through the value package.
 //
 // Observed: "ok <z>" | "err 1" (ZeroDivisionError) | "err 2" (any other Elk error) |
 // "panic <msg>" | "hang" ; floats: "<bits>" | "nan" | "lt|eq|gt|un" | "true|false".
@@ -384,6 +391,121 @@ func runFloat(f []string) string {
 	return showFloat(r)
 }
 
+var fclasses = map[string]func() *value.Class{
+	"fl":  func() *value.Class { return value.FloatClass },
+	"f64": func() *value.Class { return value.Float64Class },
+	"f32": func() *value.Class { return value.Float32Class },
+}
+
+func callFloatMethod(ty, name string, args ...value.Value) (value.Value, value.Value) {
+	m := fclasses[ty]().LookupMethod(value.ToSymbol(name))
+	if m == nil {
+		return value.Undefined, value.Undefined
+	}
+	nm, ok := m.(*vm.NativeMethod)
+	if !ok {
+		return value.Undefined, value.Undefined
+	}
+	return nm.Function(nil, args)
+}
+
+// refPow is the trusted reference for `**`: Go's math.Pow at binary64, rounded to the width.
+func refPow(ty string, a, b float64) string {
+	if ty == "f32" {
+		return show32(float32(math.Pow(a, b)))
+	}
+	return show64(math.Pow(a, b))
+}
+
+// fp <via> <ty> <op> <a> <b>
+func runFloatPow(f []string) string {
+	via, ty, op := f[1], f[2], f[3]
+	a, b := floatVal(ty, f[4]), floatVal(ty, f[5])
+	var r, e value.Value
+	sym := map[string]string{"pow": "**", "mod": "%"}[op]
+	switch via {
+	case "val":
+		if op == "pow" {
+			r, e = value.ExponentiateVal(a, b)
+		} else {
+			r, e = value.ModuloVal(a, b)
+		}
+	case "meth":
+		r, e = callFloatMethod(ty, sym, a, b)
+	case "meth1":
+		r, e = callFloatMethod(ty, sym+"@1", a, b)
+	case "typed":
+		e = value.Undefined
+		switch ty {
+		case "fl":
+			if op == "pow" {
+				r = a.AsFloat().ExponentiateFloat(b.AsFloat()).ToValue()
+			} else {
+				r = a.AsFloat().ModuloFloat(b.AsFloat()).ToValue()
+			}
+		case "f64":
+			if op == "pow" {
+				r = a.AsInlineFloat64().ExponentiateFloat64(b.AsInlineFloat64()).ToValue()
+			} else {
+				r = a.AsInlineFloat64().ModuloFloat64(b.AsInlineFloat64()).ToValue()
+			}
+		case "f32":
+			if op == "pow" {
+				r = a.AsFloat32().ExponentiateFloat32(b.AsFloat32()).ToValue()
+			} else {
+				r = a.AsFloat32().ModuloFloat32(b.AsFloat32()).ToValue()
+			}
+		}
+	default:
+		panic("unknown via " + via)
+	}
+	res := "err 2"
+	if e.IsUndefined() {
+		res = showFloat(r)
+	}
+	if op == "pow" {
+		var x, y float64
+		if ty == "f32" {
+			x, y = float64(f32bits(f[4])), float64(f32bits(f[5]))
+		} else {
+			x, y = f64bits(f[4]), f64bits(f[5])
+		}
+		res += "\t" + refPow(ty, x, y)
+	}
+	return res
+}
+
+// fpi <via> <op> <a> <int>
+func runFloatPowInt(f []string) string {
+	via, op := f[1], f[2]
+	a := floatVal("fl", f[3])
+	z := parseBig(f[4])
+	var b value.Value
+	if z.IsInt64() {
+		b = value.SmallInt(z.Int64()).ToValue()
+	} else {
+		b = value.Ref(value.ToElkBigInt(new(big.Int).Set(z)))
+	}
+	var r, e value.Value
+	sym := map[string]string{"pow": "**", "mod": "%"}[op]
+	if via == "meth" {
+		r, e = callFloatMethod("fl", sym, a, b)
+	} else if op == "pow" {
+		r, e = value.ExponentiateVal(a, b)
+	} else {
+		r, e = value.ModuloVal(a, b)
+	}
+	res := "err 2"
+	if e.IsUndefined() {
+		res = showFloat(r)
+	}
+	if op == "pow" {
+		y, _ := new(big.Float).SetInt(z).Float64() // one rounding to nearest even
+		res += "\t" + refPow("fl", f64bits(f[3]), y)
+	}
+	return res
+}
+
 func runConv(f []string) string {
 	op, x := f[1], f[2]
 	switch op {
@@ -447,6 +569,10 @@ func run(input string) string {
 			return runFloat(f)
 		case "cv":
 			return runConv(f)
+		case "fp":
+			return runFloatPow(f)
+		case "fpi":
+			return runFloatPowInt(f)
 		}
 		return "bad-input"
 	})
@@ -728,17 +854,155 @@ func gen32(r *hx.Rng) uint32 {
 	return uint32(r.Next())
 }
 
+// ---- `**` and `%`: the special-value grid (all ordered pairs, every run) and directed operands
+
+func withSigns64(fs []float64) []uint64 {
+	var out []uint64
+	for _, f := range fs {
+		b := math.Float64bits(f)
+		out = append(out, b, b|1<<63)
+	}
+	return append(out, 0x7FF0000000000000, 0xFFF0000000000000, 0x7FF8000000000000)
+}
+
+func withSigns32(fs []float32) []uint32 {
+	var out []uint32
+	for _, f := range fs {
+		b := math.Float32bits(f)
+		out = append(out, b, b|1<<31)
+	}
+	return append(out, 0x7F800000, 0xFF800000, 0x7FC00000)
+}
+
+// zeros, one, halves, odd / even integers, non-integers, the largest non-integer, the largest odd
+// integer, 2^53 and beyond (every value even), subnormals, extremes, neighbours of 1 — both signs
+var corner64 = withSigns64([]float64{0, 1, 0.5, 2, 3, 4, 5, 1.5, 2.5, 0.25, 0.1, 1.0 / 3, 1023, 1024, 1075,
+	4503599627370495.5, 4503599627370497, 9007199254740991, 9007199254740992, 9007199254740994, 9223372036854775808,
+	math.MaxFloat64, math.SmallestNonzeroFloat64, math.Float64frombits(0x000FFFFFFFFFFFFF), math.Float64frombits(0x0010000000000000),
+	math.Float64frombits(0x3FF0000000000001), math.Float64frombits(0x3FEFFFFFFFFFFFFF)})
+
+var corner32 = withSigns32([]float32{0, 1, 0.5, 2, 3, 4, 5, 1.5, 2.5, 0.25, 0.1, 1.0 / 3, 127, 128, 150,
+	8388607.5, 8388609, 16777215, 16777216, 16777218, 9223372036854775808,
+	math.MaxFloat32, math.SmallestNonzeroFloat32, math.Float32frombits(0x007FFFFF), math.Float32frombits(0x00800000),
+	math.Float32frombits(0x3F800001), math.Float32frombits(0x3F7FFFFF)})
+
+var fpVias = map[string][]string{"fl": {"val", "typed", "meth", "meth1"}, "f64": {"val", "typed", "meth"}, "f32": {"val", "typed", "meth"}}
+
+func gridPow() {
+	id := 0
+	next := func(in string) {
+		hx.Emit(fmt.Sprintf("k%d", id), in, run(in))
+		id++
+	}
+	for _, op := range []string{"pow", "mod"} {
+		for _, ty := range []string{"fl", "f64"} {
+			vs := fpVias[ty]
+			for i, a := range corner64 {
+				for _, b := range corner64 {
+					next(fmt.Sprintf("fp %s %s %s %d %d", vs[(i+id)%len(vs)], ty, op, a, b))
+				}
+			}
+		}
+		vs := fpVias["f32"]
+		for i, a := range corner32 {
+			for _, b := range corner32 {
+				next(fmt.Sprintf("fp %s f32 %s %d %d", vs[(i+id)%len(vs)], op, a, b))
+			}
+		}
+	}
+}
+
+// operands for which `**` is finite and inexact, or sits on a case boundary
+func genPow64(r *hx.Rng) uint64 {
+	neg := uint64(0)
+	if r.Chance(1, 3) {
+		neg = 1 << 63
+	}
+	switch r.Below(8) {
+	case 0:
+		return hx.Pick(r, corner64)
+	case 1: // small integers
+		return math.Float64bits(float64(r.Range(0, 70))) | neg
+	case 2: // quarters
+		return math.Float64bits(float64(r.Range(0, 400))/4) | neg
+	case 3: // neighbours of 1
+		return uint64(int64(0x3FF0000000000000)+int64(r.Range(-40, 40))) | neg
+	case 4: // integers around 2^52 .. 2^54, where non-integers and odd integers end
+		return math.Float64bits(float64(uint64(1)<<uint(r.Range(51, 54)))+float64(r.Range(-5, 5))/2) | neg
+	case 5: // moderate magnitudes
+		return (r.Next() & 0x000FFFFFFFFFFFFF) | uint64(r.Range(1023-8, 1023+8))<<52 | neg
+	case 6:
+		return gen64(r)
+	}
+	return r.Next()
+}
+
+func genPow32(r *hx.Rng) uint32 {
+	neg := uint32(0)
+	if r.Chance(1, 3) {
+		neg = 1 << 31
+	}
+	switch r.Below(8) {
+	case 0:
+		return hx.Pick(r, corner32)
+	case 1:
+		return math.Float32bits(float32(r.Range(0, 70))) | neg
+	case 2:
+		return math.Float32bits(float32(r.Range(0, 400))/4) | neg
+	case 3:
+		return uint32(int32(0x3F800000)+int32(r.Range(-40, 40))) | neg
+	case 4:
+		return math.Float32bits(float32(uint32(1)<<uint(r.Range(22, 25)))+float32(r.Range(-5, 5))/2) | neg
+	case 5:
+		return (uint32(r.Next()) & 0x007FFFFF) | uint32(r.Range(127-8, 127+8))<<23 | neg
+	case 6:
+		return gen32(r)
+	}
+	return uint32(r.Next())
+}
+
+func genPowInt(r *hx.Rng) *big.Int {
+	switch r.Below(5) {
+	case 0:
+		return big.NewInt(int64(r.Range(-70, 70)))
+	case 1:
+		z := pow2(uint(r.Range(52, 64)))
+		z.Add(z, big.NewInt(int64(r.Range(-2, 2))))
+		if r.Chance(1, 2) {
+			z.Neg(z)
+		}
+		return z
+	case 2:
+		return r.BoundaryInt()
+	case 3: // beyond the binary64 range: converts to an infinity
+		z := pow2(uint(r.Range(1020, 1030)))
+		z.Add(z, big.NewInt(int64(r.Range(-1, 1))))
+		if r.Chance(1, 2) {
+			z.Neg(z)
+		}
+		return z
+	}
+	return r.BigBits(r.Range(1, 80))
+}
+
 var fOps = []string{"add", "sub", "mul", "div", "add", "sub", "mul", "div", "cmp", "lt", "le", "gt", "ge", "eq"}
 
 func genFloat(r *hx.Rng, n int) {
 	for i := 0; i < n; i++ {
 		var in string
-		switch c := r.Below(10); {
+		switch c := r.Below(16); {
 		case c < 4:
 			ty := hx.Pick(r, []string{"fl", "f64"})
 			in = fmt.Sprintf("f %s %s %d %d", ty, hx.Pick(r, fOps), gen64(r), gen64(r))
 		case c < 8:
 			in = fmt.Sprintf("f f32 %s %d %d", hx.Pick(r, fOps), gen32(r), gen32(r))
+		case c < 11:
+			ty := hx.Pick(r, []string{"fl", "f64"})
+			in = fmt.Sprintf("fp %s %s %s %d %d", hx.Pick(r, fpVias[ty]), ty, hx.Pick(r, []string{"pow", "mod"}), genPow64(r), genPow64(r))
+		case c < 13:
+			in = fmt.Sprintf("fp %s f32 %s %d %d", hx.Pick(r, fpVias["f32"]), hx.Pick(r, []string{"pow", "mod"}), genPow32(r), genPow32(r))
+		case c < 14:
+			in = fmt.Sprintf("fpi %s %s %d %s", hx.Pick(r, []string{"val", "meth"}), hx.Pick(r, []string{"pow", "mod"}), genPow64(r), genPowInt(r))
 		default:
 			switch r.Below(7) {
 			case 0:
@@ -779,7 +1043,9 @@ func main() {
 	r := hx.NewRng(o.Seed)
 	switch o.Extra {
 	case "float":
+		gridPow()
 		genFloat(r, o.N)
+	case "floatcases": // only the -input cases (used by the Elk program stream)
 	default:
 		genInt(r, o.N)
 		if o.Tier == "thorough" {
